@@ -4,11 +4,20 @@ import Driver.Util
 namespace Drv.Set
 open SetM
 
-abbrev St := S Nat
+/-- the set under test and a second, RETAINED set used as the argument of `AddSet/RemoveSet`
+(`arg*` requests): in the model the two are separate values, so any later effect of one on the
+other (shared storage) shows as a difference -/
+structure St where
+  s : S Nat := none
+  arg : S Nat := none
+
+instance : Inhabited St := ⟨{}⟩
 
 def showList (l : List Nat) : String := joinSp ((l.mergeSort (· ≤ ·)).map toString)
 
-def handle (st : St) (ws : List String) : St × String :=
+def probeOf (s : S Nat) (n : Nat) : String := String.join ((List.range n).map (fun i => showBool (has s [i])))
+
+def handle1 (st : S Nat) (ws : List String) : S Nat × String :=
   match ws with
   | ["nil"] => (none, "ok")
   | ["slice"] => (st, match slice st with | none => "nil" | some l => "[" ++ showList l ++ "]")
@@ -17,7 +26,7 @@ def handle (st : St) (ws : List String) : St × String :=
     | none => (st, "bad-op")
   | "rt" :: _codec :: _mode :: tgt =>
     -- round trip through the identity list codec into a target: `rt nil`, `rt empty`, `rt <idx>*`
-    let t : Option St := match tgt with
+    let t : Option (S Nat) := match tgt with
       | ["nil"] => some none
       | ["empty"] => some (some [])
       | xs => (natsOf xs).map make
@@ -40,5 +49,24 @@ def handle (st : St) (ws : List String) : St × String :=
       | "hasany" => (st, showBool (hasAny st xs))
       | _ => (st, "bad-op")
   | _ => (st, "bad-op")
+
+def handle (st : St) (ws : List String) : St × String :=
+  match ws with
+  | ["argnil"] => ({ st with arg := none }, "ok")
+  | "arg" :: xs => match natsOf xs with
+    | some xs => ({ st with arg := make xs }, "ok")
+    | none => (st, "bad-op")
+  | ["addarg"] => let r := add st.s (elems st.arg); ({ st with s := r.1 }, showBool r.2)
+  | ["removearg"] => let r := remove st.s (elems st.arg); ({ st with s := r.1 }, showBool r.2)
+  | ["argprobe", n] => match n.toNat? with
+    | some n => (st, probeOf st.arg n)
+    | none => (st, "bad-op")
+  | "argadd" :: xs => match natsOf xs with
+    | some xs => let r := add st.arg xs; ({ st with arg := r.1 }, showBool r.2)
+    | none => (st, "bad-op")
+  | "argremove" :: xs => match natsOf xs with
+    | some xs => let r := remove st.arg xs; ({ st with arg := r.1 }, showBool r.2)
+    | none => (st, "bad-op")
+  | _ => let r := handle1 st.s ws; ({ st with s := r.1 }, r.2)
 
 end Drv.Set
